@@ -201,7 +201,7 @@ func fireOne(t *vtimer) {
 	mu.Unlock()
 	if fn != nil {
 		if ctl.LibMode() {
-			ctl.Go(fn) // library goroutines are scheduled by the replay controller
+			ctl.GoTimer(fn) // library goroutines are scheduled by the replay controller
 		} else {
 			go fn()
 		}
